@@ -317,6 +317,7 @@ def rand_nested(rng, i):
     g = {'k': 'list', 'ordered': rng.random() < .4, 'partial': rng.random() < .7, 'lengthErr': rng.random() < .1,
          'missingErr': me, 'delim': outer_d, 'sub': inner}
     nE = rng.randint(1, 3)
+    odd = outer_d == ['COMMA']           # every inner ', ' also splits the outer list: keep the lists short
     form = 'list' if rng.random() < .8 else rng.choice(['string', 'expect'])
     tabs = ssyms + (BLANKS[:2] if not inner['missingErr'] else [])
     if form == 'list':
@@ -338,7 +339,7 @@ def rand_nested(rng, i):
         target = []
         parts = []
         for k in range(nE):
-            inner_items = rng.sample(esyms, rng.randint(1, 3))
+            inner_items = rng.sample(esyms, rng.randint(1, 2 if odd else 3))
             parts.append(join_syms(inner_items, inner_d))
             target.append([[{'sym': it, 'credit': [1, 1]}] for it in inner_items])
         atext = join_syms(parts, outer_d)
@@ -355,8 +356,8 @@ def rand_nested(rng, i):
     for inner_items in target:
         base = [good_for(rng, tab, it, ssyms) for it in inner_items]
         if rng.random() < .5:
-            base = perturb(rng, base, ssyms, inner['ordered'], pblank, 3) or [rng.choice(ssyms)]
-        outer_items.append(join_syms(base, inner_d))
+            base = perturb(rng, base, ssyms, inner['ordered'], pblank, 2 if odd else 3) or [rng.choice(ssyms)]
+        outer_items.append(join_syms(base[:2] if odd else base, inner_d))
     if rng.random() < .6:
         if not g['ordered'] or rng.random() < .3:
             rng.shuffle(outer_items)
@@ -368,6 +369,8 @@ def rand_nested(rng, i):
             outer_items.insert(rng.randint(0, len(outer_items)), extra)
         if rng.random() < pblank:
             outer_items[rng.randrange(len(outer_items))] = rng.choice(BLANKS)
+    if odd:
+        outer_items = outer_items[:3]
     return {'id': i, 'P': P, 'text': join_syms(outer_items, outer_d), 'kind': 'nested'}
 
 
